@@ -108,8 +108,7 @@ def _apply(t, o, env, strict):
         common = [c.qualified_name for c in o.binary.common_columns]
         if not set(common) <= (t.cols & y.cols):
             raise IllFormed(f"{o}: common columns {common} missing")
-        triv = o.binary.predicate.as_trivial() is True
-        pred = None if triv else (lambda v: exprsem.z3_of_lib(o.binary.predicate, v))
+        pred = lambda v: exprsem.z3_of_lib(o.binary.predicate, v)  # noqa: E731
         # columns exposed by both operands and not joined on: the join is not well-formed on this target
         if (t.cols & y.cols) - set(common):
             raise IllFormed(f"{o}: operands share columns {sorted((t.cols & y.cols) - set(common))} that are not join columns")
